@@ -740,6 +740,16 @@ def c16_broadcast(tr, S):
                 exp.remove(g)
             else:
                 S.bad("C16", f"a broadcast of a{b['a']} for type {b['ty']} was handled by a{g}, which is not a (remaining) child under that type", b["idx"])
+        # exactly once to *every* child: a child nobody stopped, alive at the broadcast, that ended
+        # gracefully has handled its copy (copies are made in the order of the child list)
+        if len(b["ops"]) == len(b["exp"]):
+            for o, c in zip(b["ops"], b["exp"]):
+                x = S.actors.get(c)
+                if x is None or o in where:
+                    continue
+                if (x.graceful and x.first_stop_op is None and not x.deq_stop and not x.stream_ended
+                        and x.dead_at is not None and x.dead_at > b["idx"]):
+                    S.bad("C16", f"child a{c} (registered under type {b['ty']}, never stopped) ended gracefully without handling its copy o{o} of the broadcast of a{b['a']}", b["idx"])
 
 
 BROKER, TOPIC_OP, TOPIC_RET = 44, 45, 46
